@@ -5,7 +5,7 @@ from __future__ import annotations
 import ast
 from typing import Dict, List, Optional, Set, Tuple
 
-from oqv.astutil import call_name, method_call, bind_args
+from oqv.astutil import branch_context, call_name, method_call, bind_args
 from oqv.cfg import CFG
 from oqv.dataflow import DefUse, Def
 from oqv.forms import Poly, eval_form
@@ -295,6 +295,42 @@ def check_stepper_order(chk: Check, u: Unit, g: CFG, events: Dict[int, str],
                     "" if bad is None else f"{k} control is applied twice in one step")
 
 
+def _pre_before_final_record(chk: Check, u: Unit, du: DefUse, ev: Dict[int, str]) -> None:
+    """The state recorded after the loop (last step) is preceded, in the same
+    iteration, by the pre-measurement control of that step."""
+    g = du.cfg
+    loops = [n for n in g.nodes if n.kind == "iter" and "num_steps" in norm(n.ast.iter)
+             and "reversed" not in norm(n.ast.iter)]
+    if not loops:
+        raise AnalysisError(f"O2: stepping loop of {u.qual} not found")
+    loop = loops[0]
+    in_loop = g.reachable([b for b, l in g.succ[loop.id] if l == "it"],
+                          edge_ok=lambda a, b, l: True)
+    body = {n for n in in_loop if g.find_path([n], lambda x: x == loop.id) is not None}
+    finals = [n for n, k in ev.items() if k == "RECORD" and n not in body]
+    pre = {n for n, k in ev.items() if k == "PRE" and n in body}
+    # a test `X is not None` on a PRE control also discharges the obligation (no control)
+    pre_vars = set()
+    for n in pre:
+        for c in g.nodes[n].calls():
+            if call_name(c) == "_apply_system_superoperator" and isinstance(c.args[2], ast.Name):
+                pre_vars.add(c.args[2].id)
+    tests = {n.id for n in g.nodes if n.kind == "test" and isinstance(n.ast, ast.Compare)
+             and dotted(n.ast.left) in pre_vars}
+    if not finals:
+        chk.add("O2", u, "final state recorded after the loop", False,
+                "no state is recorded after the last step")
+        return
+    starts = [b for b, l in g.succ[loop.id] if l == "it"]
+    p = g.find_path(starts, lambda x: x in finals, blocked=lambda x: x in pre or x in tests,
+                    edge_ok=lambda a, b, l: l != "loop")
+    chk.add("O2", u, "pre-control of the last step precedes the final record", p is None,
+            "" if p is None else
+            "the loop can be left and the final state recorded without applying the "
+            "pre-measurement control of the last step",
+            path=None if p is None else g.describe_path(p, u.loc)[:8])
+
+
 def o2(prog: Program, chk: Check) -> None:
     chk.rule("O2", "every stepper performs PRE-control -> RECORD -> POST-control -> PROPAGATE "
              "(first half, environments, second half) in this order on every path of a step, "
@@ -310,6 +346,7 @@ def o2(prog: Program, chk: Check) -> None:
             # forward pass only: events before the first reversed() loop
             ev = _forward_only(du.cfg, ev)
         check_stepper_order(chk, u, du.cfg, ev)
+        _pre_before_final_record(chk, u, du, ev)
     # PT-TEBD
     cyc = ["PRE", "RECORD", "POST", "INC", "PROP"]
     for q in ("pt_tebd:PtTebd.initialize", "pt_tebd:PtTebd.compute_step"):
@@ -463,6 +500,76 @@ def o3(prog: Program, chk: Check) -> None:
     chk.add("O3", ap, "None control returns the inputs unchanged", ret_ok)
 
 
+def o3b(prog: Program, chk: Check) -> None:
+    """pre/post bookkeeping: which container a control goes to and comes from."""
+    u = prog.unit("control:Control.add_single")
+    vals = {}
+    for st in walk_local(u.node):
+        if isinstance(st, ast.Assign) and dotted(st.targets[0]) == "pre_post" \
+                and isinstance(st.value, ast.Constant):
+            ctx = [br for (t, br) in branch_context(u.node, st) if dotted(t) == "post"]
+            if len(ctx) == 1:
+                vals[ctx[0]] = st.value.value
+    ok = vals == {True: "post", False: "pre"}
+    chk.add("O3", u, f"post flag -> container key {vals}", ok,
+            "" if ok else "pre- and post-measurement controls are stored under swapped keys")
+    u = prog.unit("control:Control.get_controls")
+    du = DefUse(u, CFG(u.node, exc_edges=False))
+    rets = [n for n in du.cfg.nodes if n.kind == "stmt" and isinstance(n.ast, ast.Return)]
+    for rn in rets:
+        v = rn.ast.value
+        if not (isinstance(v, ast.Tuple) and len(v.elts) == 2):
+            chk.add("O3", u, f"return {norm(v)}", False, "get_controls must return (pre, post)")
+            continue
+        kinds = []
+        for el in v.elts:
+            keys = set()
+            seen = set()
+            work = [(rn.id, el)]
+            while work:
+                nid, e = work.pop()
+                for x in ast.walk(e):
+                    if isinstance(x, ast.Subscript) and isinstance(x.slice, ast.Constant) \
+                            and x.slice.value in ("pre", "post"):
+                        keys.add(x.slice.value)
+                    if isinstance(x, ast.Name) and isinstance(x.ctx, ast.Load):
+                        for d in du.reaching(nid, x.id):
+                            if d.id not in seen and d.value is not None:
+                                seen.add(d.id)
+                                work.append((d.node, d.value))
+            kinds.append(sorted(keys))
+        ok = kinds == [["pre"], ["post"]]
+        chk.add("O3", u, f"return ({kinds[0]}, {kinds[1]})", ok,
+                "" if ok else "the returned pair does not carry (pre controls, post controls)",
+                rn.ast)
+    cc = prog.cls("control:ChainControl")
+    for mname in ("add_single_site_control", "get_single_site_controls"):
+        mu = cc.methods[mname]
+        seen = {}
+        for x in walk_local(mu.node):
+            d = dotted(x) if isinstance(x, ast.Attribute) else None
+            if d in ("self._single_site_controls_pre", "self._single_site_controls_post"):
+                ctx = branch_context(mu.node, x)
+                for (t, br) in ctx:
+                    neg = False
+                    tt = t
+                    while isinstance(tt, ast.UnaryOp) and isinstance(tt.op, ast.Not):
+                        neg = not neg
+                        tt = tt.operand
+                    if dotted(tt) == "post":
+                        post_true = br != neg
+                        seen[d.split("_")[-1]] = post_true
+        ok = seen == {"pre": False, "post": True}
+        chk.add("O3", mu, f"post flag selects {seen}", ok,
+                "" if ok else "ChainControl stores / returns pre- and post-controls swapped")
+    ap = prog.unit("pt_tebd:PtTebd._apply_controls")
+    fw = [c for c in walk_local(ap.node) if isinstance(c, ast.Call)
+          and method_call(c) and method_call(c)[1] == "get_single_site_controls"]
+    ok = len(fw) == 1 and [norm(a) for a in fw[0].args] == ["step", "post"]
+    chk.add("O3", ap, f"get_single_site_controls({', '.join(norm(a) for a in fw[0].args) if fw else ''})",
+            ok, "" if ok else "step / post are not forwarded unchanged")
+
+
 def _is_rounded_relative_time(du: DefUse, nid: int, e: ast.AST) -> Tuple[bool, str]:
     """e (or its unique definition) is round/rint((T - start_time)/dt)."""
     for _ in range(3):
@@ -507,3 +614,4 @@ def run(prog: Program, chk: Check) -> None:
     o1(prog, chk)
     o2(prog, chk)
     o3(prog, chk)
+    o3b(prog, chk)
